@@ -374,10 +374,20 @@ def main():
     can_errs, errs = split_canary(errs)
     if len(can_errs) != n_canaries or n_canaries == 0:
         print('MACHINERY: %d of %d canaries failed as they must - the trusted base may be inconsistent (not a verdict)' % (len(can_errs), n_canaries)); sys.exit(2)
-    if any(is_rlimit(e) for e in errs):                       # resource-outs: retry once with a much larger limit
-        res2 = run_verus(gen, mods + pmods, rlimit=rl * 8, timeout=900)
+    # resource-outs: retry once with a much larger limit - but only the modules in which a function ran out of resources WITHOUT also
+    # failing a definite obligation (a function that already has a definite failure is decided by that; re-solving it at 8x the limit is
+    # what made one seeded Alma change take half an hour)
+    rl_attr = [attribute(e, rep, gen_lines) for e in errs if is_rlimit(e)]
+    definite = set((f['module'], f['fn'].split('/')[0]) for f in (attribute(e, rep, gen_lines) for e in errs if not is_rlimit(e)))
+    retry_mods = sorted(set((('views::' + f['module']) if not f['module'].startswith(('props', 'lem', 'alg')) else f['module'])
+                            for f in rl_attr if (f['module'], f['fn'].split('/')[0]) not in definite))
+    res2 = None
+    if retry_mods:
+        res2 = run_verus(gen, retry_mods, rlimit=rl * 8, timeout=900)
         if res2['json'] is not None:
-            res, errs = res2, parse_stderr(res2['stderr'])
+            errs2 = parse_stderr(res2['stderr'])
+            keep = [e for e in errs if not (is_rlimit(e) and (lambda f: (f['module'], f['fn'].split('/')[0]) not in definite)(attribute(e, rep, gen_lines)))]
+            errs = keep + errs2
     undecided = [attribute(e, rep, gen_lines) for e in errs if is_rlimit(e)]
     fails = [attribute(e, rep, gen_lines) for e in errs if not is_rlimit(e)]
     for f in fails:
@@ -398,10 +408,10 @@ def main():
     for f in deciding:
         ks = [k for k in known if finding_matches(k, pid, f)]
         (known_hits if ks else new).append((f, ks))
-    # confirm a failure once with another solver seed and a larger limit before believing it
+    # confirm a failure once with another solver seed before believing it
     if new:
         fmods = sorted(set(('views::' + f['module']) if not f['module'].startswith('props') else f['module'] for f, _ in new))
-        res3 = run_verus(gen, fmods, rlimit=rl * 4, timeout=1500, extra='--smt-option random_seed=%d' % (seed + 7))
+        res3 = run_verus(gen, fmods, rlimit=rl, timeout=900, extra='--smt-option random_seed=%d' % (seed + 7))
         errs3 = parse_stderr(res3['stderr'])
         fails3 = [attribute(e, rep, gen_lines) for e in errs3]
         keys3 = set((f['module'], f['fn'].split('/')[0]) for f in fails3)
@@ -412,6 +422,7 @@ def main():
     # ---- obligations of this property
     obl = [o for o in lmap.values() if pid in o['tags'] and ('views::' + o['module']) in mods]   # only clauses of modules verified in this run
     fnres = fn_results(res['json'])
+    if res2 is not None and res2['json'] is not None: fnres.update(fn_results(res2['json']))      # functions re-solved with the larger limit
     lemma_fns = [k for k, v in fnres.items() if '::props::' in k and '_vac::' not in k]
     n_obl = len(obl) + len(lemma_fns)
     if pid == 'C15':
